@@ -277,6 +277,11 @@ def search(ctx, budget):
         ctx.evaluations += 1; ctx.count('section_theorem_' + r[0])
         if r[0] == 'bad':
             ctx.failures.append(({'stage': 'section', 'args': list(j), 'unparsed': r[2]}, r[1]))
+    ij = sj[:ctx.n(60, 2000)]
+    for j, r in zip(ij, impl.pmap(C06._section_ids, ij, chunk=8)):
+        ctx.evaluations += 1; ctx.count('section_any_eids_theorem_' + r[0])
+        if r[0] == 'bad':
+            ctx.failures.append(({'stage': 'section-ids', 'args': list(j), 'unparsed': r[2]}, r[1]))
     for j, r in zip(pj, impl.pmap(C06._crossheading, pj, chunk=16)):
         ctx.evaluations += 1; ctx.count('crossheading_theorem_' + r[0])
         if r[0] == 'bad':
@@ -308,6 +313,8 @@ def replay(obj):
     from props import C06
     if case.get('stage') == 'paragraph':
         r = C06._para((case['uri'], case['prefix'], case['string'])); print(r[:2]); return 1 if r[0] == 'bad' else 0
+    if case.get('stage') == 'section-ids':
+        r = C06._section_ids(tuple(case['args'])); print(r[:2]); return 1 if r[0] == 'bad' else 0
     if case.get('stage') == 'crossheading':
         r = C06._crossheading((case['uri'], case['prefix'], case['string'])); print(r[:2]); return 1 if r[0] == 'bad' else 0
     if case.get('stage') == 'section':
@@ -319,7 +326,7 @@ LEVEL_TEXT = ('Partial. Proved on the tables regenerated from akn_text.xsl, akn.
               'or speech keyword of the grammar gives an element that template matches (C05_unparsed_keyword_parses_back, C05_keywords_have_templates); the Gallina model of the unparser has a branch for '
               'exactly the elements the stylesheet has templates for (C05_templates_are_modelled), and over that model: trees equal up to their eId attributes '
               'unparse to the same text in every context, so the unparsed text does not depend on eIds (C05_unparse_up_to_eids, C05_unparse_ignores_eids). '
-              'The round trip is a theorem for two element kinds, through the whole pipeline model: for every known FRBR URI, every eId prefix and every text s without tab or line break, without blanks at its ends and of XML-legal characters - whatever it spells - convert(unparse(<p eId=prefix__p_1>s</p>)) is that very element, eId included (C05_paragraph_round_trip; instances run on the implementation on every run); and for the basic hierarchical element: for each of the 34 keywords\' elements, every num without blank, dash or backslash, every such heading and paragraph text, convert(unparse(<tag eId><num/><heading/><content><p eId/></content></tag>)) is that very element - the keyword the unparser prints names the same element, the blank line it writes after the keyword line is layout (C05_section_round_trip, and C05_section_round_trip_no_heading for the element without a heading; instances on every run), and for a crossheading with any such text (C05_crossheading_round_trip; instances on every run). For all other elements the round trip is not a theorem: it is decided by the oracle on the implementation: identity of parse(unparse(x)) with eIds, '
+              'The round trip is a theorem for two element kinds, through the whole pipeline model: for every known FRBR URI, every eId prefix and every text s without tab or line break, without blanks at its ends and of XML-legal characters - whatever it spells - convert(unparse(<p eId=prefix__p_1>s</p>)) is that very element, eId included (C05_paragraph_round_trip; instances run on the implementation on every run); and for the basic hierarchical element: for each of the 34 keywords\' elements, every num without blank, dash or backslash, every such heading and paragraph text, convert(unparse(<tag eId><num/><heading/><content><p eId/></content></tag>)) is that very element - the keyword the unparser prints names the same element, the blank line it writes after the keyword line is layout (C05_section_round_trip, and C05_section_round_trip_no_heading for the element without a heading; instances on every run), and for a crossheading with any such text (C05_crossheading_round_trip; instances on every run); wherever the round trip holds it does not depend on the ids the document carried - stale, scrambled or missing eIds come back as the generated ones (C05_round_trip_regenerates_eids, C05_section_round_trip_any_eids; instances on every run). For all other elements the round trip is not a theorem: it is decided by the oracle on the implementation: identity of parse(unparse(x)) with eIds, '
               'a no-op second round trip, and fragment round trips for every element kind, on sampled documents of the C04 specification generator x seven '
               'roots; the stylesheet is modelled in full (Model/Unparse.v, Model/UnparseDoc.v) and tied to libxslt by the xslstr and unp stages. Documents from forgiving-mode input are not '
               'claimed (listed findings).')
